@@ -148,8 +148,15 @@ def catalogue(rnd, quick):
         token = pattern[off + 1:pattern.index("»")]
         src = pattern.replace("«", "").replace("»", "")
         cases.append((kind, src, token, off, opts))
-    ctxs = ["", "<p>é\n  text</p>\n", "<!-- c -->\n\n  "]
+    ctxs = ["", "<p>é\n  text</p>\n", "<!-- c -->\n\n  ", "<p>é\r\n  text</p>\r\n"]
     for pre in ctxs:
+        if "\r" in pre:
+            # CRLF line endings before the planted error: one kind of its own (the offset then refers to the
+            # text after line-ending normalisation)
+            _add = add
+
+            def add(kind, src, _add=_add, **opts):   # noqa: F811
+                _add("offset-after-crlf", src, **opts)
         add("unknown-tal-statement", pre + '<a tal:«foo»="x">t</a>')
         add("unknown-metal-statement", pre + '<a metal:«foo»="x">t</a>')
         add("unknown-i18n-statement", pre + '<a i18n:«foo»="x">t</a>')
